@@ -30,6 +30,10 @@ bitmap.
 --   accepted before that is not older than the window and below 2^40 − 1 is accepted — unless a PIV ≥ 2^40 − 1 has
 --   already been accepted from the peer (sequence number space exhausted, cf. D15b).  A response that fails
 --   authentication is never accepted and, like a forged request, leaves the state untouched.
+-- SPEC DECISION D15g: RFC 8613 Appendix B.1.2 — the Partial IV of the request that completes the Echo exchange is the
+--   LOWER edge (`floor`) of the replay window: the recipient lost its window in the restart, every lower Partial IV may
+--   have been accepted in the previous life.  A request below the floor must be rejected (that is what makes "at most
+--   once" hold across restarts); a response below it may go either way (D15f).
 -/
 namespace Coap.ReplaySpec
 
@@ -72,9 +76,10 @@ structure St where
   accepted : List Nat
   seen : List Nat
   synced : Bool
+  floor : Nat := 0
   deriving DecidableEq, Repr
 
-def St.start (b12 : Bool) : St := { accepted := [], seen := [], synced := !b12 }
+def St.start (b12 : Bool) : St := { accepted := [], seen := [], synced := !b12, floor := 0 }
 
 /-- every PIV accepted from the peer so far -/
 def St.all (s : St) : List Nat := s.accepted ++ s.seen
@@ -96,6 +101,7 @@ def allowedReq (window : Nat) (s : St) (q : Req) : List Out :=
     | .bad => [.reject]
     | .good => if q.piv ≥ SEQ_LIMIT ∨ s.seen.contains q.piv then [.accept, .reject] else [.accept]
   else if s.accepted.contains q.piv then [.reject]
+  else if q.piv < s.floor then [.reject]
   else if q.piv ≥ SEQ_LIMIT then [.accept, .reject]
   else if s.seen.contains q.piv then [.accept, .reject]
   else if inWindow window s.all q.piv then [.accept]
@@ -109,7 +115,7 @@ def allowedRsp (window : Nat) (s : St) (x : Rsp) : List Out :=
     | none => [.accept]
     | some p =>
       if s.all.contains p then [.accept, .reject]
-      else if p ≥ SEQ_LIMIT ∨ maxOf s.all ≥ SEQ_LIMIT then [.accept, .reject]
+      else if p ≥ SEQ_LIMIT ∨ maxOf s.all ≥ SEQ_LIMIT ∨ p < s.floor then [.accept, .reject]
       else if inWindow window s.all p then [.accept]
       else [.accept, .reject]
 
@@ -121,7 +127,7 @@ def allowed (window : Nat) (s : St) : Msg → List Out
 /-- Monitor update with the outcome that actually happened. -/
 def next (s : St) (m : Msg) (o : Out) : St :=
   match o, m with
-  | .accept, .req q => { s with accepted := q.piv :: s.accepted, synced := true }
+  | .accept, .req q => { s with accepted := q.piv :: s.accepted, synced := true, floor := if s.synced then s.floor else q.piv }
   | .accept, .rsp ⟨_, some p⟩ => { s with seen := p :: s.seen }
   | _, _ => s
 
